@@ -783,6 +783,10 @@ def c18(ctx):
 @check("C19")
 def c19(ctx):
     props.check_props_file(ctx, "Props/C19.v")
+    # ApplyIf / ApplySelectJson of the statement builders against the functional model the C19_api_* laws are about
+    live, tail, diffs = api_correspondence(ctx, 3000 if ctx.quick() else 30000)
+    ctx.cov["api_applyif_steps"] = sum(1 for s_ in live if s_["method"] in ("ApplyIf", "ApplySelectJson"))
+    api_composition_search(ctx, tail, diffs, "a conditional combinator returns something else than the receiver / the function's result")
     cases = special_mode_cases(ctx, "c19", ["-n", "1200" if ctx.quick() else "60000"])
     kinds = Counter()
     ev = 0
